@@ -59,7 +59,9 @@ func C04(r *core.Run) {
 	nameAffinity(r, convRel, "fields.go")
 	nameAffinity(r, schemaRel, "schema_from_proto.go")
 	sourceCoverage(r)
-	attributeIndependence(r, "sym_sites", "buildField", "buildProperty")
+	attributeIndependence(r, "sym_sites", "*")
+	attributeIndependenceIn(r, schemaRel, []string{"buf.build/gen/go/bufbuild/protovalidate/protocolbuffers/go/buf/validate", core.Module + "/gen/j5/ext/v1/ext_j5pb", core.Module + "/gen/j5/list/v1/list_j5pb"}, "sym_sites",
+		"buildScalarType", "wktSchema", "buildFromStringProto", "buildEnumFieldSchema", "buildMessageFieldSchema", "Package.messageProperties", "Package.buildSchema")
 }
 
 // slotAgreement (R-SYM/S3): per integer/float format, the list-rule and
